@@ -74,9 +74,12 @@ fn main() {
     let mut rep = Report::new("C17", &args);
     rep.rule = "generated closed lambdas over the core vocabulary (sequences, if, for/while with declarations and guards, \
                 try, nested lambdas, local declarations shadowing outer names, operator chains, list literals, negative \
-                literals) reading 2-4 outer variables and one outer function; program = freeze it, call frozen and unfrozen \
-                twin, reassign every outer variable and the outer function, call the frozen one again; 15% must-fail lambdas \
-                (unbound free variable, assignment / op-assignment to an outer variable, each in a dead branch). \
+                literals, type-annotated parameters on the lambda under test and on nested lambdas) reading 2-4 outer \
+                variables, 0-2 outer variables holding TYPES (used in parameter annotations) and one outer function; \
+                program = freeze it, call frozen and unfrozen twin, reassign every outer variable (type variables to a type \
+                the argument does not have) and the outer function, call the frozen one again; 15% must-fail lambdas \
+                (unbound free variable, assignment / op-assignment to an outer variable, each in a dead branch; unbound \
+                name in a parameter annotation of the lambda itself or of a nested lambda in a dead branch). \
                 non-trivial = lambda body has >= 3 distinct features; distinct = distinct program text"
         .into();
 
@@ -103,7 +106,7 @@ fn main() {
     let mut cases = vec![];
     for i in 0..n_cases {
         let mut g = Gen::new(rng.fork(), if i % 4 == 0 { 3 } else { 2 });
-        let kind = if g.rng.chance(15, 100) { 1 + g.rng.below(3) } else { 0 };
+        let kind = if g.rng.chance(15, 100) { 1 + g.rng.below(5) } else { 0 };
         let fc = g.gen_freeze_case(kind);
         cases.push((fc.program(), fc.expect_fail, g.features.clone()));
     }
@@ -130,6 +133,19 @@ fn main() {
         ("minus-call-form-raises", "h := freeze (\\x -> -(1, x)); try h(\"s\") catch _ -> \"E\"", "ok s:45"),
         ("unary-minus-folded", "h := freeze (\\x -> [-(3), -(2.5), -x]); h(4)", "ok [-3,f:c004000000000000,-4]"),
         ("iteratee-declaration-leaks", "h := freeze \\ -> ((for (x <- [(y := 5; y)]) 0); y); h()", "ok 5"),
+        // parameter type annotations are expressions evaluated at call time in the closure's scope: their free
+        // variables are resolved at freeze time like the body's (seeded change C17-a2 skipped them when no
+        // parameter has a default)
+        ("annotation-outer-type-var", "ty := int; f := freeze \\x: ty -> x + 1; ty = str; f(3)", "ok 4"),
+        ("annotation-outer-type-var-nested", "ty := int; f := freeze \\n -> (g := \\y: ty -> y * 2; g(n)); ty = str; f(4)", "ok 8"),
+        ("annotation-unbound-fails-at-freeze", "ok := 1; try (f := freeze \\x: nosuchtype -> x) catch _ -> (ok = 0); ok", "ok 0"),
+        ("annotation-unbound-nested-fails-at-freeze", "ok := 1; try (f := freeze \\n -> (if (0) (\\y: nosuchtype -> y))) catch _ -> (ok = 0); ok", "ok 0"),
+        ("annotation-with-default", "ty := int; k := 5; f := freeze \\x: ty, y = k -> x + y; ty = str; k = 50; [f(3), f(3, 4)]", "ok [8,7]"),
+        ("annotation-and-default-same-param", "ty := int; k := 5; f := freeze \\x: ty = k -> x + 1; ty = str; k = \"s\"; [f(), f(3)]", "ok [6,4]"),
+        ("annotation-frozen-equals-plain", "ty := int; f := freeze \\x: ty -> x + 1; g := \\x: ty -> x + 1; [f(3), try f(\"s\") catch e -> \"E\", g(3), try g(\"s\") catch e -> \"E\"]", "ok [4,s:45,4,s:45]"),
+        ("annotation-splat", "ty := list; f := freeze \\a, ...r: ty -> [a, r]; ty = int; f(1, 2, 3)", "ok [1,[2,3]]"),
+        ("annotation-mismatch-still-raises", "ty := str; f := freeze \\x: ty -> x; ty = int; try f(3) catch e -> \"E\"", "ok s:45"),
+        ("annotation-builtin-type-shadowed-later", "f := freeze \\x: int -> x + 1; r1 := f(3); int = str; r2 := f(3); [r1, r2]", "ok [4,4]"),
         ("dict-literal", "o := 3; h := freeze (\\x -> {x: o, \"k\": [o, x]}); r1 := h(1); o = 9; r1 == h(1)", "ok 1"),
     ];
 
